@@ -171,12 +171,25 @@ fn scenario(cx: &mut Ctx, rng: &mut Rng) {
         5 => {
             // dyn Any downcast: matching and non-matching target
             let matching = rng.chance(1, 2);
-            let b: BBox<dyn Any> = unsafe { let bb = BBox::new_in(Tok::new(x), cx.bump); BBox::from_raw(BBox::into_raw(bb) as *mut dyn Any) };
-            let cap0 = cx.arena();
-            let (okv, tag): (bool, u8) = if matching {
-                match b.downcast::<Tok>() { Ok(t) => { let ok = t.id == x; drop(t); (ok, 1) } Err(e) => { drop(e); (false, 1) } }
+            // (both flavours of the payload type: dyn Any and dyn Any + Send have separate downcast impls)
+            let send_flavour = rng.chance(1, 2);
+            let cap0;
+            let (okv, tag): (bool, u8) = if send_flavour {
+                let b: BBox<dyn Any + Send> = unsafe { let bb = BBox::new_in(Tok::new(x), cx.bump); BBox::from_raw(BBox::into_raw(bb) as *mut (dyn Any + Send)) };
+                cap0 = cx.arena();
+                if matching {
+                    match b.downcast::<Tok>() { Ok(t) => { let ok = t.id == x; drop(t); (ok, 1) } Err(e) => { drop(e); (false, 1) } }
+                } else {
+                    match b.downcast::<u64>() { Ok(t) => { drop(t); (false, 0) } Err(e) => { let ok = e.downcast_ref::<Tok>().map(|t| t.id) == Some(x) && take_drops().is_empty(); drop(e); (ok, 0) } }
+                }
             } else {
-                match b.downcast::<u64>() { Ok(t) => { drop(t); (false, 0) } Err(e) => { let ok = e.downcast_ref::<Tok>().map(|t| t.id) == Some(x); drop(e); (ok, 0) } }
+                let b: BBox<dyn Any> = unsafe { let bb = BBox::new_in(Tok::new(x), cx.bump); BBox::from_raw(BBox::into_raw(bb) as *mut dyn Any) };
+                cap0 = cx.arena();
+                if matching {
+                    match b.downcast::<Tok>() { Ok(t) => { let ok = t.id == x; drop(t); (ok, 1) } Err(e) => { drop(e); (false, 1) } }
+                } else {
+                    match b.downcast::<u64>() { Ok(t) => { drop(t); (false, 0) } Err(e) => { let ok = e.downcast_ref::<Tok>().map(|t| t.id) == Some(x) && take_drops().is_empty(); drop(e); (ok, 0) } }
+                }
             };
             let d = take_drops();
             let cap1 = cx.arena();
